@@ -217,6 +217,15 @@ func (ex *Exec) eqBytes(a, b []*Term) *Term {
 			}
 			continue
 		}
+		// encodings of points: ser(P,i) = ser(Q,i) iff P = Q (the encoding is injective)
+		if a[p].Op == OUF && b[p].Op == OUF && a[p].Name == "ser" && b[p].Name == "ser" && a[p].Args[1] == b[p].Args[1] {
+			res = c.And(res, c.Eq(a[p].Args[0], b[p].Args[0]))
+			p++
+			if res.IsFalse() {
+				return res
+			}
+			continue
+		}
 		aa, ao, aok := ex.idealByte(a[p])
 		ba, bo, bok := ex.idealByte(b[p])
 		switch {
@@ -300,6 +309,10 @@ func (ex *Exec) newPriv(name string, id *Term) *privObj {
 			ex.addPC(ex.C.Not(ex.C.Eq(id, p.id)))
 		}
 	}
+	// Pub is injective
+	for _, p := range st.privs {
+		ex.addPC(ex.C.Implies(ex.C.Eq(ex.C.UF("Pub", BV(64), id), ex.C.UF("Pub", BV(64), p.id)), ex.C.Eq(id, p.id)))
+	}
 	p := &privObj{id: id, name: name}
 	st.privs = append(st.privs, p)
 	return p
@@ -317,6 +330,10 @@ func (ex *Exec) pubPtr(p *pubObj) Value  { return Ptr{Tag: p} }
 func (ex *Exec) privPtr(p *privObj) Value { return Ptr{Tag: p} }
 
 func (ex *Exec) asPub(v Value) *pubObj {
+	if o, ok := v.(*Opaque); ok && o.Kind == "deref" {
+		pk, _ := o.Data.(*pubObj)
+		return pk
+	}
 	p, ok := v.(Ptr)
 	if !ok || p.Tag == nil {
 		return nil
